@@ -7,7 +7,7 @@
 // exact rejection bytes the model predicts.
 //
 //	srv new <nsid hex|-> <secret t|f> <ecs t|f> <ka> <cache t|f>
-//	srv q <entry> <Q> <R>        entry: rawudp rawtcp inline msgdoh msgdoq http sockudp socktcp
+//	srv q <entry> <Q> <R>        entry: rawudp rawtcp inline msgdoh msgdoq http sockudp socktcp sockdoq
 //	srv raw <entry> <hex packet> <R>   entry: sockudp socktcp (malformed / rejected packets)
 //	srv stop
 package main
@@ -45,6 +45,7 @@ func stopLive() {
 		tcpConn.Close()
 		tcpConn = nil
 	}
+	stopDoQ()
 	if live != nil {
 		live.Stop()
 		live = nil
@@ -65,6 +66,7 @@ func startLive(c deployCfg, withCache bool) {
 		cfg.ECS.Enabled = c.ecs
 	}})
 	liveCfg = c
+	startDoQ()
 }
 
 func remoteFor(entry string) (net.Addr, string) {
@@ -72,7 +74,7 @@ func remoteFor(entry string) (net.Addr, string) {
 	switch entry {
 	case "rawtcp", "msgdoh", "msgdoq":
 		return &net.TCPAddr{IP: ip, Port: 4242}, clientIP
-	case "sockudp", "socktcp":
+	case "sockudp", "socktcp", "sockdoq":
 		return nil, "127.0.0.1"
 	}
 	return &net.UDPAddr{IP: ip, Port: 4242}, clientIP
@@ -92,6 +94,8 @@ func kindOf(entry string) entryKind {
 		return entryKind{proto: "udp", listener: true}
 	case "socktcp":
 		return entryKind{proto: "tcp", listener: true}
+	case "sockdoq":
+		return entryKind{proto: "doq"}
 	}
 	panic("entry " + entry)
 }
@@ -322,6 +326,8 @@ func execSrv(f []string) vlib.Res {
 		reply = udpExchange(pkt, len(pkt) >= 3 && pkt[2]&0x80 != 0)
 	case "socktcp":
 		reply = tcpExchange(pkt, len(pkt) >= 3 && pkt[2]&0x80 != 0)
+	case "sockdoq":
+		reply = doqExchange(pkt)
 	}
 	d := liveCfg.deploy()
 	d.remoteIP = rip
@@ -334,7 +340,7 @@ func execSrv(f []string) vlib.Res {
 		hit := live.Stub.Calls.Load() == calls0
 		tags = ruleTags(q, r, ek.proto, nil)
 		if hit && reply != nil {
-			tags = appendTag(tags, "cache-hit")
+			tags = appendTag(tags, "no-upstream-call")
 		}
 		if reply != nil && len(reply) > 3 && reply[2]&0x02 != 0 {
 			tags = appendTag(tags, "r-truncate")
